@@ -429,6 +429,7 @@ func (e *Engine) mergeable(fn *ssa.Function) bool { return mergeableFns[fnKey(fn
 // one result with ite terms. Paths that panic/abort/escape stay separate successor states.
 func (e *Engine) callMerged(s *State, fr *Frame, fn *ssa.Function, args, bind []Value, res ssa.Value) []*State {
 	base := s.clone()
+	baseModel := s.model
 	baseNext := s.NextObj
 	depth := len(s.Frames)
 	e.pushFrame(s, fn, args, bind, nil)
@@ -543,6 +544,13 @@ func (e *Engine) callMerged(s *State, fr *Frame, fn *ssa.Function, args, bind []
 		if len(g.conds) > 1 {
 			g.m.PC = base.PC
 			g.m.addPC(Or(g.conds...))
+		}
+		// the model of the state before the call still satisfies the merged state if it satisfies the
+		// (usually exhaustive) disjunction of the joined callee paths: no model is lost inside pure helpers
+		if baseModel != nil && (g.m.model == nil || len(g.conds) > 1) {
+			if modelSatisfies(baseModel, []*Term{Or(g.conds...)}) {
+				g.m.model = baseModel
+			}
 		}
 		finish(g.m, g.ret)
 		out = append(out, g.m)
